@@ -20,7 +20,8 @@ CONSTANTS Starts,     \* start table ids
           Slack,      \* positions range over -1 .. n + Slack
           PairMode,   \* "all": every (a,b) of positions; "core": representative ranges
           CellMode,   \* "all": every (r,c) in -1..n ; "core": in-range cells + one beyond each edge
-          MaxR, MaxC, MaxP, MaxTok   \* bounds for SpecMC only
+          MaxR, MaxC, MaxP, MaxTok,  \* bounds for SpecMC only
+          MaxLevel                   \* SpecMC explores transitions out of states at most MaxLevel-1 steps from Init
 
 VARIABLES st,    \* [tbl, nxt]   reference table, next fresh content token
           pre,   \* table before the last operation
@@ -100,6 +101,7 @@ NextMC ==
   /\ pre' = pre
   /\ hist' = hist
 SpecMC == Init /\ [][NextMC]_vars
+LevelBound == TLCGet("level") <= MaxLevel
 
 \* the reference design keeps every table a well-formed grid ...
 Inv_WF == WellFormed(st.tbl) \/ NR(st.tbl) = 0
@@ -132,6 +134,8 @@ OpShape(op) ==
   IF op.op \in {"InsertRow", "AppendRow", "InsertColumn", "AppendColumn"} THEN [op EXCEPT !.data = Len(op.data)]
   ELSE IF op.op \in CellOps THEN [op EXCEPT !.tok = 0]
   ELSE op
-GView == <<ShapeOf(pre), IF hist = <<>> THEN [op |-> "none"] ELSE OpShape(hist[Len(hist)])>>
+\* (the start table id is kept: a reopened table has the shape of the one built through the API)
+GView == <<IF hist = <<>> THEN "none" ELSE hist[1].k, ShapeOf(pre),
+           IF hist = <<>> THEN [op |-> "none"] ELSE OpShape(hist[Len(hist)])>>
 MCView == <<ShapeOf(st.tbl), bad>>
 =============================================================================
